@@ -46,17 +46,17 @@ type schedCase struct {
 }
 
 type opResult struct {
-	ID      int             `json:"id"`
-	Op      opSpec          `json:"op"`
-	Batch   int             `json:"batch"`
-	Call    int64           `json:"call"`
-	Ret     int64           `json:"ret"`
-	Done    bool            `json:"done"`
-	Err     string          `json:"err,omitempty"`
-	OK      bool            `json:"ok"`
-	IsAdmin bool            `json:"is_admin,omitempty"`
-	NoAdminInfo bool        `json:"no_admin_info,omitempty"`
-	List    map[string]bool `json:"list,omitempty"`
+	ID          int             `json:"id"`
+	Op          opSpec          `json:"op"`
+	Batch       int             `json:"batch"`
+	Call        int64           `json:"call"`
+	Ret         int64           `json:"ret"`
+	Done        bool            `json:"done"`
+	Err         string          `json:"err,omitempty"`
+	OK          bool            `json:"ok"`
+	IsAdmin     bool            `json:"is_admin,omitempty"`
+	NoAdminInfo bool            `json:"no_admin_info,omitempty"`
+	List        map[string]bool `json:"list,omitempty"`
 }
 
 type schedOutcome struct {
@@ -117,14 +117,14 @@ func upgradesArg(mode string) string {
 
 type sched struct {
 	adminTok string
-	mux     *http.ServeMux
-	e       *agentEnv
-	clock   atomic.Int64
-	mu      sync.Mutex
-	results []*opResult
-	parked  bool
-	g1, g2  chan checkResult
-	batch   int
+	mux      *http.ServeMux
+	e        *agentEnv
+	clock    atomic.Int64
+	mu       sync.Mutex
+	results  []*opResult
+	parked   bool
+	g1, g2   chan checkResult
+	batch    int
 }
 
 func (sc *sched) tick() int64 { return sc.clock.Add(1) }
